@@ -1,6 +1,7 @@
 (* C14 — in, nin, none_of, any_of, subset_of implement set membership.  Statements only. *)
 From Coq Require Import List NArith ZArith Bool.
-From JP Require Import Base Ast Eval ValueModel Spec Known WellFormed ValueFacts Refine Regex RegexFacts.
+From JP Require Import Base Ast Eval ValueModel Spec Known WellFormed ValueFacts Refine Regex RegexFacts
+  Entry DataFacts SelFacts Build Purity GenParse GenBuild FragParse FilterParse FilterBuild StringLevel.
 Import ListNotations.
 
 Definition n_in := [105; 110]%N.
@@ -41,6 +42,44 @@ Proof.
   intros H. unfold ext_fn. destruct x as [x|]; [|reflexivity]. destruct y as [[| | | | l |]|]; try reflexivity.
   exfalso. apply (H l). reflexivity.
 Qed.
+
+(* string level, end to end: the TEXT of a filter that calls in / nin / none_of / any_of / subset_of (two
+   ValueType arguments: literals, singular queries, calls of length/count/value), alone or combined with
+   everything else of the filter tower, goes through the generated grammar, TestFunction::try_new (the `Custom`
+   arm), Queryable::extension_custom and the evaluator, and keeps exactly the children on which the expression
+   holds with [ext_fn] -- the set-membership reading stated by the theorems above -- as the value of the call *)
+Theorem C14_string_level_calls : forall n (e : list (list (xatom (SelT n)))) (d : json),
+  eok (SelT n) (sokT n) e -> egood (SelT n) (sgoodT lit_arg n) (sastT n) lit_arg e -> wf_json d = true ->
+  let f := or_ast (SelT n) (sastT n) e in
+  exists ps,
+    api_with_path (36%N :: 91%N :: filter_text (SelT n) (stextT n) e ++ [93%N]) d
+      = Some (map (fun p => (inner p, path p)) ps)
+    /\ map node_of ps
+       = List.filter (fun c => r_holds rx_spec_full rx_spec_sub jeqb false d f (snd c)) (children ([], d)).
+Proof. exact filter_children_in_order. Qed.
+Print Assumptions C14_string_level_calls.
+
+(* $[?in(@.a,$[0].l)&&!subset_of(@.s,$[0].l)||nin(@.a,$[0].l)&&any_of(@.s,$[0].l)] *)
+Example C14_string_level_example :
+  let L := XAQuery (SelT 0) true [GBracket _ (FIndex 0%Z) []; GShort _ [108]%N] in
+  let A := XAQuery (SelT 0) false [GShort _ [97]%N] in
+  let S_ := XAQuery (SelT 0) false [GShort _ [115]%N] in
+  let e : list (list (xatom (SelT 0))) :=
+    [[XFnTest _ false (XFn2 _ FIn A L); XFnTest _ true (XFn2 _ FSubsetOf S_ L)];
+     [XFnTest _ false (XFn2 _ FNin A L); XFnTest _ false (XFn2 _ FAnyOf S_ L)]] in
+  let a := [97]%N in let s := [115]%N in let l := [108]%N in
+  let i k := JNum (NInt k) in
+  let d := JArr [JObj [(a, i 1); (l, JArr [i 1; i 2; i 3]); (s, JArr [i 1; i 9])];
+                 JObj [(a, i 2); (s, JArr [i 3; i 3])];
+                 JObj [(a, i 7); (s, JArr [i 8; i 2])];
+                 JObj [(a, i 7); (s, JArr [])]] in
+  filter_text (SelT 0) (stextT 0) e
+  = [63;105;110;40;64;46;97;44;36;91;48;93;46;108;41;38;38;33;115;117;98;115;101;116;95;111;102;40;64;46;115;44;36;91;48;93;46;108;41;
+     124;124;110;105;110;40;64;46;97;44;36;91;48;93;46;108;41;38;38;97;110;121;95;111;102;40;64;46;115;44;36;91;48;93;46;108;41]%N
+  /\ option_map (map snd) (api_with_path (36%N :: 91%N :: filter_text (SelT 0) (stextT 0) e ++ [93%N]) d)
+     = Some [[36; 91; 48; 93]%N; [36; 91; 50; 93]%N].
+Proof. vm_compute. split; reflexivity. Qed.
+
 (* a missing second argument, or one that is not an array, makes the test false (not an error) *)
 Theorem C14_bad_args_false : forall name x y,
   (forall l, y <> Some (JArr l)) -> ext_fn jeqb name [x; y] = false.
